@@ -4,7 +4,7 @@
 usage: confirm_seeded.py <dir-with-patch.diff,demo.rs,meta.json> [...]"""
 import json, os, shutil, subprocess, sys, time
 VERIF = os.path.dirname(os.path.dirname(os.path.abspath(__file__)))
-WT = "/tmp/wt-confirm"
+WT = os.environ.get("CONFIRM_WT", "/tmp/wt-confirm")
 def sh(cmd, cwd=None, timeout=1800):
     p = subprocess.run(cmd, shell=True, cwd=cwd, capture_output=True, timeout=timeout)
     return p.returncode, (p.stdout.decode(errors="replace") + p.stderr.decode(errors="replace"))
@@ -36,6 +36,10 @@ for d in sys.argv[1:]:
     res["suite_with_patch"] = {"passed": passed, "failed": ("FAILED" in out or "error" in out)}
     os.makedirs(os.path.dirname(os.path.join(WT, demo_path)), exist_ok=True)
     shutil.copy(os.path.join(d, "demo.rs"), os.path.join(WT, demo_path))
+    if os.path.exists(os.path.join(d, "harness.diff")):
+        # test scaffolding only (e.g. tera-contrib as a dev-dependency of tera for a demo that needs both crates)
+        rch, outh = sh(f"git apply {d}/harness.diff", cwd=WT)
+        res["harness_applied"] = rch == 0
     rc, out = sh(f"cargo test -p {pkg} --offline{feat} --test {tname} 2>&1 | tail -25", cwd=WT)
     res["demo_with_patch_fails"] = ("test result: FAILED" in out) or ("panicked" in out and "test result: ok" not in out) or ("overflowed its stack" in out) or ("SIGABRT" in out) or ("signal:" in out)
     res["demo_with_patch_tail"] = out[-600:]
